@@ -2,7 +2,8 @@
 M-Query: searches over the exported RDF graph.
 
   odml/rdf/query_creator.py   QueryCreator._prepare_query (SPARQL text from a query dictionary;
-                              here: the list of triple patterns of its basic graph pattern)
+                              here: the list of triple patterns of its basic graph pattern and
+                              the list of its FILTERs on the variables ?d ?s ?p ?v)
   odml/rdf/fuzzy_finder.py    FuzzyFinder._generate_parameters_pairs(_fuzzy),
                               _generate_parameters_subsets / _subsets_util_dfs /
                               _check_duplicate_attrs, _prepare_query (grouping), _output_query_results
@@ -116,15 +117,45 @@ inductive Var where
   | d | s | p | v
   deriving DecidableEq, Repr, Inhabited
 
+/-- A position of a triple pattern.  `str s` stands for a helper variable `?t1, ?t2, …` that occurs
+    at this one position only, together with its `FILTER (STR(?t) = "s")`: any term whose text is
+    `s` (the helper variables are not part of the rows). -/
 inductive PT where
   | var (x : Var)
   | const (t : Term)
+  | str (s : Str)
   deriving DecidableEq, Repr, Inhabited
 
 structure Pat where
   s : PT
   p : PT
   o : PT
+  deriving DecidableEq, Repr, Inhabited
+
+/-- SPARQL `STR(term)`: the IRI text, the lexical form of a literal whatever its datatype.  The
+    fresh nodes of the writer are IRIs named by a uuid4 in the implementation; the model names them
+    canonically and has no text for them (nobody can ask for that text). -/
+def strOf : Term → Option Str
+  | .iri s => some s
+  | .lit l _ => some l
+  | .seqn _ => none
+  | .tnode _ => none
+
+/-- `STRSTARTS(STR(p), str(RDF) + "_")`: a membership predicate `rdf:_1, rdf:_2, …` -/
+def isMemberPred (p : Term) : Bool :=
+  match strOf p with
+  | some u => (stripPrefix liPrefix u).isSome
+  | none => false
+
+/-- The FILTERs `_prepare_query` puts on the variables of the rows.
+    * `strEq x s`          `FILTER (STR(?x) = "s")`
+    * `member x s`         `FILTER EXISTS { ?x ?t1 ?t2 . FILTER (STRSTARTS(STR(?t1), "…rdf-syntax-ns#_")
+                                                              && STR(?t2) = "s") }`
+    * `typedBy x pred s`   `FILTER EXISTS { ?x pred ?t1 . ?t1 rdf:type ?t2 . FILTER (STR(?t2) = "s") }` -/
+inductive Flt where
+  | strEq (x : Var) (s : Str)
+  | member (x : Var) (s : Str)
+  | typedBy (x : Var) (pred : Term) (s : Str)
   deriving DecidableEq, Repr, Inhabited
 
 inductive QErr where
@@ -145,17 +176,51 @@ def odmlIri (local_ : String) : Term := .iri (ns ++ local_.toList)
 def rdfBag : Term := .iri (rdfNs ++ "Bag".toList)
 def rdfLi : Term := .iri (rdfNs ++ "li".toList)
 
-/-- One `(attribute, value)` entry: `fmt.rdf_map(name)` is the predicate, or the name itself
-    when it is no key of the map — which is then no valid SPARQL term (`parse`); an empty name
-    is skipped (`if attr:`).  The value becomes a plain string literal. -/
+/-- How `_prepare_query` asks for an attribute of a kind of object (the `if` / `elif` chains of
+    the three branches): the node itself (`id`), the terminology node (`repository`), an object
+    compared by its text (`date`, `uncertainty`: typed literals in the export), or a plain string
+    literal. -/
+inductive Shape where
+  | id | repo | text | plain
+  deriving DecidableEq, Repr
+
+def shapeOf (k : Kind) (a : Str) : Shape :=
+  match k with
+  | .doc => if a == "id".toList then .id else if a == "repository".toList then .repo
+            else if a == "date".toList then .text else .plain
+  | .sec => if a == "id".toList then .id else if a == "repository".toList then .repo else .plain
+  | .prop => if a == "id".toList then .id else if a == "uncertainty".toList then .text else .plain
+
+/-- The triple patterns of one `(attribute, value)` entry: `fmt.rdf_map(name)` is the predicate, or
+    the name itself when it is no key of the map — which is then no valid SPARQL term (`parse`); an
+    empty name is skipped (`if attr:`).  A plain attribute asks for a plain string literal, `date`
+    and `uncertainty` for any object with that text; `id` and `repository` only add a FILTER
+    (`attrFlt`); `value` asks for the value node, the members are FILTERs. -/
 def attrPat (x : Pair) : Except QErr (List Pat) :=
   if x.kind == .prop && x.attr == "value".toList then
     if x.vals.isEmpty then .ok []
-    else .ok ([⟨.var .p, .const (odmlIri "hasValue"), .var .v⟩, ⟨.var .v, .const rdfType, .const rdfBag⟩] ++
-      x.vals.map fun v => ⟨.var .v, .const rdfLi, .const (.lit v [])⟩)
+    else .ok [⟨.var .p, .const (odmlIri "hasValue"), .var .v⟩]
   else match (tableOf x.kind).lookup (String.ofList x.attr) with
-    | some pred => .ok [⟨.var (varOf x.kind), .const (.iri pred.toList), .const (.lit x.val [])⟩]
+    | some pred =>
+      match shapeOf x.kind x.attr with
+      | .id => .ok []
+      | .repo => .ok []
+      | .text => .ok [⟨.var (varOf x.kind), .const (.iri pred.toList), .str x.val⟩]
+      | .plain => .ok [⟨.var (varOf x.kind), .const (.iri pred.toList), .const (.lit x.val [])⟩]
     | none => if x.attr.isEmpty then .ok [] else .error .parse
+
+/-- The FILTERs of one entry: the node IRI for `id` (`odml namespace + id`), the type of the
+    terminology node for `repository`, one member of the value node per searched value. -/
+def attrFlt (x : Pair) : List Flt :=
+  if x.kind == .prop && x.attr == "value".toList then x.vals.map fun v => .member .v v
+  else match (tableOf x.kind).lookup (String.ofList x.attr) with
+    | some pred =>
+      match shapeOf x.kind x.attr with
+      | .id => [.strEq (varOf x.kind) (ns ++ x.val)]
+      | .repo => [.typedBy (varOf x.kind) (.iri pred.toList) x.val]
+      | .text => []
+      | .plain => []
+    | none => []
 
 def attrPats : List Pair → Except QErr (List Pat)
   | [] => .ok []
@@ -180,6 +245,11 @@ def prepareQuery (q : QParams) : Except QErr (List Pat) :=
   | .error e, _, _ => .error e
   | _, .error e, _ => .error e
   | _, _, .error e => .error e
+
+/-- The FILTERs of the generated query, in the order of the text.  (A FILTER restricts the
+    solutions of the whole group, wherever it stands.) -/
+def prepareFilters (q : QParams) : List Flt :=
+  q.doc.flatMap attrFlt ++ q.sec.flatMap attrFlt ++ q.prop.flatMap attrFlt
 
 /-! ## Basic graph pattern evaluation -/
 
@@ -212,6 +282,7 @@ def matchPT (b : Binding) (pt : PT) (t : Term) : Option Binding :=
     match b.get x with
     | some u => if u = t then some b else none
     | none => some (b.set x t)
+  | .str s => if strOf t = some s then some b else none
 
 def matchPat (b : Binding) (pat : Pat) (t : Triple) : Option Binding :=
   match matchPT b pat.s t.s with
@@ -227,6 +298,26 @@ def evalBGP (g : Graph) : List Pat → List Binding → List Binding
   | pat :: rest, bs => evalBGP g rest (bs.flatMap fun b => g.filterMap (matchPat b pat))
 
 def solutions (g : Graph) (pats : List Pat) : List Binding := evalBGP g pats [{}]
+
+/-- Is the variable bound to the node (an unbound variable of an EXISTS group is free)? -/
+def boundTo (b : Binding) (x : Var) (n : Term) : Bool :=
+  match b.get x with
+  | some u => u == n
+  | none => true
+
+/-- A FILTER holds for a solution (an error - `STR` of an unbound variable - counts as false). -/
+def Flt.holds (g : Graph) (b : Binding) : Flt → Bool
+  | .strEq x s =>
+    match b.get x with
+    | some t => strOf t == some s
+    | none => false
+  | .member x s => g.any fun t => boundTo b x t.s && isMemberPred t.p && strOf t.o == some s
+  | .typedBy x pred s => g.any fun t => boundTo b x t.s && t.p == pred &&
+      g.any fun u => u.s == t.o && u.p == rdfType && strOf u.o == some s
+
+/-- The solutions of the group: basic graph pattern, then the FILTERs. -/
+def filtered (g : Graph) (pats : List Pat) (fs : List Flt) : List Binding :=
+  (solutions g pats).filter fun b => fs.all (Flt.holds g b)
 
 /-! ## Direct evaluation on the documents -/
 
@@ -305,7 +396,7 @@ def directEval (ds : List DocT) (q : QParams) : List Row := (candidates ds).filt
 def queryRows (g : Graph) (q : QParams) : Except QErr (List (Option Term × Option Term × Option Term)) :=
   match prepareQuery q with
   | .error e => .error e
-  | .ok pats => .ok ((solutions g pats).map fun b => (b.d, b.s, b.p))
+  | .ok pats => .ok ((filtered g pats (prepareFilters q)).map fun b => (b.d, b.s, b.p))
 
 /-- `FuzzyFinder.find`: the combinations that are executed, most specific first, each with its
     rows; combinations without a hit are omitted. -/
@@ -322,11 +413,12 @@ def findRows (g : Graph) (pairs : List Pair) :
 
 /-! ## Hypotheses of `C20.query_sound_complete`, in decidable form (evaluated by the driver) -/
 
-/-- The string-valued attributes a search is proved exact for. -/
+/-- The attributes a search is proved exact for: the string-valued ones and the two that are
+    exported as typed literals (the Document's date, the Property's uncertainty). -/
 def safeAttrs : Kind → List String
-  | .doc => ["author", "version"]
+  | .doc => ["author", "version", "date"]
   | .sec => ["name", "type", "definition", "reference"]
-  | .prop => ["name", "definition", "dtype", "unit", "reference", "value_origin"]
+  | .prop => ["name", "definition", "dtype", "unit", "reference", "value_origin", "uncertainty"]
 
 def safePairB (k : Kind) (x : Pair) : Bool := x.kind == k && (safeAttrs k).contains (String.ofList x.attr)
 
